@@ -8,7 +8,7 @@ CONSTANTS
   Record = FALSE
   MCN = 3
   MaxLen = 2
-  Alphabet = "wide"
+  Alphabet = "mid"
   Prefits = {"none", "fit", "fitbase"}
   CfgSel = "all"
   Sample = 0
